@@ -534,4 +534,6 @@ Fixpoint os_run (t : t10) (st : option N * option N * N * N * N) (steps : list (
   end.
 Definition codes14r (cs : list hcase) : list N :=
   map (fun c => (if k_run c true (init_mst c) (hc_steps c) && s_run c true (init_mst c) stats_new (hc_steps c) then 0 else 1)
-                + (if os_run (mk10 None [] []) (None, None, 0, 0, 0) (hc_steps c) then 0 else 2)) cs.
+                (* os_run stops judging where C10's oracle (which it uses to know the outstanding requests) fails: that
+                   failure is reported here too, so that no history goes unjudged silently *)
+                + (if os_run (mk10 None [] []) (None, None, 0, 0, 0) (hc_steps c) && o10 c then 0 else 2)) cs.
